@@ -45,14 +45,22 @@ def parsePeer : List String → Option Peer
   | ["nil"] => some .nilAddr
   | _ => none
 
-def parseEvent (tok : String) : Option ReadResult :=
+/-- One script token = the results of one or two reads.  `k:…` is a datagram whose
+read completes while `Close` is being called on the server (the connection is closed
+before `ReadFrom` returns the datagram): for the model that is the datagram, read
+successfully, followed by the failing read every closed connection answers with. -/
+def parseEvent (tok : String) : Option (List ReadResult) :=
   match tok.splitOn ":" with
-  | ["e"] => some .readError
-  | ["c"] => some .readError
+  | ["e"] => some [.readError]
+  | ["c"] => some [.readError]
   | "d" :: h :: peer => do
     let b ← unhex h
     let p ← parsePeer peer
-    pure (.datagram b p)
+    pure [.datagram b p]
+  | "k" :: h :: peer => do
+    let b ← unhex h
+    let p ← parsePeer peer
+    pure [.datagram b p, .readError]
   | _ => none
 
 def showExit : Exit → String
@@ -70,10 +78,10 @@ def stepServer (op : String) (args0 : List String) : Option String :=
   match op with
   | "serve4" => do
     let evs ← args.mapM parseEvent
-    pure (showOutcome showPkt4 (serve4 evs))
+    pure (showOutcome showPkt4 (serve4 evs.flatten))
   | "serve6" => do
     let evs ← args.mapM parseEvent
-    pure (showOutcome (fun m => (sxMsg m).show) (serve6dec evs))
+    pure (showOutcome (fun m => (sxMsg m).show) (serve6dec evs.flatten))
   | _ => none
 
 end Dhcp.Driver
